@@ -185,6 +185,7 @@ func RunC13Corrupt(s *kernel.Sim) *World {
 	ctx, _ := w.Ctx(0)
 	w.Spawn("ctor", func(*kernel.Task) {
 		st, err = setec.NewStore(ctx, cfg)
+		w.Gate()
 		if st != nil {
 			w.Store = st
 		}
